@@ -2,6 +2,9 @@ use crate::feature::sorted::FeatureSorted;
 use crate::parser::error::Error;
 use proc_macro2::Span;
 use proc_macro_error::{abort, emit_error};
+#[cfg(enum_tools_verif)]
+use crate::verif_seam::HashMap;
+#[cfg(not(enum_tools_verif))]
 use std::collections::HashMap;
 use syn::spanned::Spanned;
 use syn::{Data, Expr, ExprLit, ExprUnary, Fields, Ident, Lit, Meta, MetaNameValue, UnOp};
